@@ -5,6 +5,7 @@ from vf.harness import common as H
 from vf.harness.c11 import _zero_value
 
 PROPERTY = "C14"
+SETTINGS_THOROUGH = {"case_budget": 600.0}   # histories of 4 operations need minutes per case
 BOUNDS = {"all": "histories of <= 3 (quick) / 4 (thorough) operations, each an engine decision among: mutate the array element / nested "
                  "structure field / scalar / char array of a default-constructed instance, of a keyword-constructed instance and of a "
                  "parsed instance (written values symbolic), parse other symbolic bytes, failing parse, dump, operations on a SECOND "
